@@ -315,7 +315,8 @@ class Hedger(Module):
             # This maintains consistency with the previous implementations.
             # In previous implementation for loop is computed for 0...T-2 and
             # the last time step is not included.
-            output[..., -1, :] = output[..., -2, :]
+            # (not in place: the model output may be needed for its own backward)
+            output = torch.cat((output[..., :-1, :], output[..., [-2], :]), dim=-2)
 
         output = output.transpose(-1, -2)  # (N, H, T)
 
